@@ -41,7 +41,9 @@ def obligations(tier):
         CH("forward_observable_property", H, "fwd_observable_property", t, functions=F[13:14], stubs=[REC], bounds="allow_custom symbolic, both spec versions"),
         CH("entry_points_same_class", H, "entry_points", t, mode="E1s", functions=F, stubs=[FSS],
            bounds="8 documents (2.0/2.1 SDO, SCO with/without id, 2.0/2.1 bundles, bundles whose members carry no version / a 2.1-only id) x (no version, 2.0, 2.1) x "
-                  "(parse, store.add, store ctor, FS sink+source, MemorySource.load_from_file, MemoryStore.load_from_file)"),
+                  "(parse, store.add, store ctor, FS sink+source with a dictionary / JSON text / a list of texts, MemorySource.load_from_file, MemoryStore.load_from_file)"),
+        CH("strictness_independent_of_history", H, "strictness_after_history", t, mode="E1s", functions=F[15:] + F[:1],
+           bounds="a UUIDv1 identifier (legal in 2.1 only) as id or inside a reference: refused as 2.0 through 5 entry points, accepted as 2.1, and still refused as 2.0 afterwards"),
         CH("library_output_recognised", H, "produced_recognised", t, mode="E1s", functions=["stix2.utils.detect_spec_version", "stix2.parsing.parse", "stix2.parsing.dict_to_stix2"],
            bounds="16 objects the library builds (empty and non-empty bundles of both versions, mixed bundle, SDO/SRO/SCO, TLP and statement markings, language "
                   "content, 2.0 observed-data) x (compact text, dict, pretty text with defaults): detected version, class and re-serialization"),
